@@ -17,7 +17,13 @@ THEOREMS = [
     'C20c_stream_idempotent',
     'C20c_certificate_sound',
     'C20c_certificate_without_canonicalize',
+    'C20c_no_empty_concept_slot',
+    'C20c_written_tree',
+    'C20c_general_tree_fixed',
+    'C20c_general_idempotent',
+    'C20c_any_certificate_sound',
     'C20c_certificate_nonvacuous',
+    'C20c_general_certificate_nonvacuous',
     'C20c_dereify_certified',
     'C20c_F30_refuted',
     'C20c_F32_refuted',
